@@ -1,4 +1,5 @@
 """C09 - a port serialises at its line rate and tail-drops exactly at its limit (Port, REDPort, PortMonitor)."""
+from vlib.util import guarded_leg
 import random, collections, json
 from onl.sim import Environment
 from onl.netdev import Port, PortMonitor
@@ -585,6 +586,7 @@ def portk_oracle(c, lines):
     return []
 
 
+@guarded_leg(lambda: ([], [], 0))
 def run_portk(cases):
     text, impl = [], {}
     for c in cases:
@@ -888,6 +890,7 @@ def redk_oracle(c, lines):
     return fails
 
 
+@guarded_leg(lambda: ([], [], 0))
 def run_redk(cases):
     text, impl = [], {}
     for c in cases:
